@@ -5,6 +5,7 @@
 -/
 import GrogModel.Drv.Proto
 import GrogModel.Tree
+import GrogModel.Store
 open Lean
 
 namespace Grog.Drv.Stores
@@ -167,7 +168,64 @@ def roundtrip : Handler := fun j => do
   return Json.mkObj [("write", Json.str "ok"), ("load", Json.str (if lerr then "err" else "ok")), ("after", jsonOfEntry fs),
     ("gets", Json.num gets), ("nblobs", Json.num nblobs), ("nchildren", Json.num nchildren), ("file_exec_flags", Json.arr flags.toArray)]
 
+/-! ### C07: replay of a backend-operation trace through `Store.step` -/
+
+def nsOf (s : String) : Except String Store.NS :=
+  match s with
+  | "cas" => pure .cas
+  | "target" => pure .target
+  | _ => throw s!"unknown namespace {s}"
+
+def resOf (s : String) : Except String Store.Res :=
+  match s with
+  | "yes" => pure .yes
+  | "no" => pure .no
+  | "err" => pure .err
+  | _ => throw s!"unknown result {s}"
+
+def setOutOf (s : String) : Except String Store.SetOut :=
+  match s with
+  | "ok" => pure .ok
+  | "errStored" => pure .errStored
+  | "errNotStored" => pure .errNotStored
+  | _ => throw s!"unknown set outcome {s}"
+
+def storeEvOf (j : Json) : Except String Store.Ev := do
+  let e ← getStr j "e"
+  let p ← getNat j "p"
+  match e with
+  | "exists" => pure (.existsRes p (← nsOf (← getStr j "ns")) (← getBytes j "k") (← resOf (← getStr j "r")))
+  | "get" => pure (.getRes p (← nsOf (← getStr j "ns")) (← getBytes j "k") (← resOf (← getStr j "r")))
+  | "sb" =>
+    let k ← getBytes j "k"
+    let ok ← getBool j "hashOk"
+    -- the hash is the identity in the replay: a blob whose real content hashes to its key is represented by the key
+    pure (.setBegin p (← getNat j "op") (← nsOf (← getStr j "ns")) k (if ok then k else k ++ [0]) (← getBytesList j "refs"))
+  | "se" => pure (.setEnd p (← getNat j "op") (← setOutOf (← getStr j "o")))
+  | "crash" => pure (.crash p ((j.getObjValAs? (List Nat) "landed").toOption.getD []))
+  | _ => throw s!"unknown event {e}"
+
+def replayFrom (s : Store.State) (i : Nat) : List Store.Ev → Store.State × Option Nat
+  | [] => (s, none)
+  | e :: es =>
+    match Store.step Hid s e with
+    | some s' => replayFrom s' (i + 1) es
+    | none => (s, some i)
+
+/-- {"op":"store.replay","events":[..],"query":[[ns,key],..]} → {"accepted":bool,"at":n,"visible":[bool..]} -/
+def replay : Handler := fun j => do
+  let evs ← (← getArr j "events").toList.mapM storeEvOf
+  let (s, bad) := replayFrom Store.init 0 evs
+  let q := (getArr j "query").toOption.getD #[]
+  let vis ← q.toList.mapM (fun x => do
+    let a ← x.getArr?
+    let ns ← nsOf (← (a[0]?.getD Json.null).getStr?)
+    let k ← asBytes (a[1]?.getD Json.null)
+    pure (Json.bool (Store.has s ns k)))
+  pure (Json.mkObj [("accepted", Json.bool bad.isNone), ("at", match bad with | some i => Json.num i | none => Json.num (-1 : Int)),
+    ("n", Json.num evs.length), ("visible", Json.arr vis.toArray)])
+
 def handlers : List (String × Handler) :=
-  [("store.roundtrip", roundtrip)]
+  [("store.roundtrip", roundtrip), ("store.replay", replay)]
 
 end Grog.Drv.Stores
